@@ -254,10 +254,12 @@ class MinerWatcher:
             # we didn't mine the block
             return
 
+        # first validate & add the block to our own coinstate; only then hand the *new* coinstate (the one that
+        # actually contains the block we found) to the networking layer, and tell the world about it.
+        self.coinstate = self.coinstate.add_block(block, int(time()))
+
         self.network_thread.local_peer.chain_manager.set_coinstate(self.coinstate)
         self.network_thread.local_peer.network_manager.broadcast_block(block)
-
-        self.coinstate = self.coinstate.add_block(block, int(time()))
 
         self.network_thread.local_peer.disk_interface.save_block(block)
         self.network_thread.local_peer.disk_interface.flush_blocks()
